@@ -48,6 +48,7 @@ struct Stmt {
 };
 struct Program { std::vector<Ty> ins; std::vector<Stmt> stmts; bool aliasPattern = false; bool intPattern = false; bool enPattern = false;
                  bool chainPattern = false;   // pattern seed: else-chains around complete nested IF/ELSE statements
+                 bool malformed = false;      // the generator deliberately broke the program (the frontend and the model must both reject it)
                  bool useMacros = false;      // executed through the real IF / ELSE / ELSEIF macros of ConditionalScope.h (otherwise through hand-expanded scope objects)
 };
 
@@ -290,14 +291,14 @@ struct Gen {
 	void genScopeBody(std::vector<Stmt> &body, bool nested) {
 		depth++; if (depth < 64) levelKind[depth] = 'c';
 		size_t nvars = vars.size(), nivars = ivars.size();
-		if (rng.chance(1, 2) && budget > 0) genBlock(body, 1);
+		if (rng.chance(1, 2) && budget > 0) genBlock(body, 1, true);
 		if (nested && depth < 7) {          // a complete IF / ELSE (or IF / ELSEIF / ELSE) statement inside
 			Stmt f; f.k = ST_IF; f.e = genCond(nullptr); genScopeBody(f.body, rng.chance(1, 4)); body.push_back(f); budget--;
 			if (rng.chance(1, 3)) { Stmt e; e.k = rng.chance(1, 2) ? ST_ELSEIF : ST_ELSEIF2; e.e = genCond(&f.e); genScopeBody(e.body, false); body.push_back(e); budget--; }
 			if (rng.chance(3, 4)) { Stmt e; e.k = ST_ELSE; genScopeBody(e.body, false); body.push_back(e); budget--; }
 			if (rng.chance(1, 3)) { Stmt g; g.k = ST_IF; g.e = genCond(nullptr); genScopeBody(g.body, false); body.push_back(g); budget--; }   // and a lone IF after it
 		}
-		if (body.empty() || rng.chance(1, 2)) { int b = budget; budget = std::max(budget, 1); genBlock(body, 1); budget = std::min(b, budget); }
+		if (body.empty() || rng.chance(1, 2)) { int b = budget; budget = std::max(budget, 1); genBlock(body, 1, true); budget = std::min(b, budget); }
 		vars.resize(nvars); ivars.resize(nivars);
 		depth--;
 	}
@@ -344,7 +345,7 @@ struct Gen {
 		depth++; if (depth < 64) levelKind[depth] = s.k == ST_IF ? 'c' : 'e';
 		size_t nvars = vars.size(), nivars = ivars.size();
 		if (rng.chance(1, 4)) s.body.push_back(genClocked());
-		if (rng.chance(1, 4) && budget > 0) genBlock(s.body, 1);         // ordinary statements in between (assignments are not gated by ENIF)
+		if (rng.chance(1, 4) && budget > 0) genBlock(s.body, 1, true);   // ordinary statements in between (assignments are not gated by ENIF)
 		genEnNest(s.body, levels - 1);
 		if (rng.chance(1, 5)) s.body.push_back(genClocked());
 		vars.resize(nvars); ivars.resize(nivars);
@@ -505,7 +506,8 @@ struct Gen {
 		}
 	}
 
-	void genBlock(std::vector<Stmt> &out, int n) {
+	// keepLocals: the statements are appended to a block that the caller continues (the caller forgets the block's variables at its end)
+	void genBlock(std::vector<Stmt> &out, int n, bool keepLocals = false) {
 		size_t nvars = vars.size(), nivars = ivars.size();
 		while (n > 0 && budget > 0) {
 			if (aliasPending && rng.chance(1, 4)) { genAliasPattern(out); n--; continue; }
@@ -574,6 +576,7 @@ struct Gen {
 		if (depth == 0 && intPending) genIntPattern(out);
 		if (depth == 0 && enPending) genEnPattern(out);
 		if (depth == 0 && chainPending) genChainPattern(out);
+		if (keepLocals) return;
 		{ // static widths survive the block (m_width of an outer variable grown inside stays grown); only the block's own variables go
 			ivars.resize(nivars); }
 		vars.resize(nvars);
@@ -598,6 +601,7 @@ static Program genProgram(Rng &rng, int maxStmts, int maxDepth, bool malformed) 
 	p.chainPattern = g.chainPending = rng.chance(1, 4);
 	p.useMacros = rng.chance(1, 2);
 	g.genBlock(p.stmts, 1000);
+	p.malformed = g.didMalform;
 	return p;
 }
 
@@ -910,7 +914,7 @@ static bool hasClocked(const std::vector<Stmt> &ss) { for (auto &s : ss) if (s.k
 static bool hasDefault(const std::vector<Stmt> &ss) { for (auto &s : ss) if (s.k == ST_DEFAULT || hasDefault(s.body)) return true; return false; }
 
 static void runCase(std::ostream &o, const std::string &id, const Program &p, Rng &vrng, int exhBits, int nRandom) {
-	o << "case " << id << (p.aliasPattern ? " alias" : "") << (p.intPattern ? " intlit" : "") << (p.enPattern ? " enable" : "") << (p.chainPattern ? " chains" : "") << (p.useMacros ? " macros" : "") << "\n";
+	o << "case " << id << (p.aliasPattern ? " alias" : "") << (p.intPattern ? " intlit" : "") << (p.enPattern ? " enable" : "") << (p.chainPattern ? " chains" : "") << (p.useMacros ? " macros" : "") << (p.malformed ? " malformed" : "") << "\n";
 	o << "ins"; for (auto &t : p.ins) o << ' ' << tyStr(t); o << '\n';
 	printStmts(o, p.stmts);
 	o << "endprog\n";
@@ -1008,7 +1012,7 @@ int main(int argc, char **argv) {
 			Tok tk = tokenize(line);
 			if (tk.next() != "case") continue;
 			std::string id = tk.next();
-			Program p; while (tk.i < tk.t.size()) { std::string m = tk.next(); if (m == "macros") p.useMacros = true; if (m == "alias") p.aliasPattern = true; if (m == "intlit") p.intPattern = true; if (m == "enable") p.enPattern = true; if (m == "chains") p.chainPattern = true; }
+			Program p; while (tk.i < tk.t.size()) { std::string m = tk.next(); if (m == "macros") p.useMacros = true; if (m == "alias") p.aliasPattern = true; if (m == "intlit") p.intPattern = true; if (m == "enable") p.enPattern = true; if (m == "chains") p.chainPattern = true; if (m == "malformed") p.malformed = true; }
 			std::getline(in, line); Tok t2 = tokenize(line); t2.next(); while (t2.i < t2.t.size()) p.ins.push_back(parseTy(t2.next()));
 			p.stmts = parseStmts(in);
 			Rng vr(12345);
